@@ -46,7 +46,11 @@ def script_pool(ctx, n):
     g = gen_scripts.Gen(table_of(ctx), r)
     pool = [b"keep;", b'require "fileinto"; fileinto "a";', b'fileinto "a";', b'require ["regex","relational"]; if header :regex "a" "b" {keep;}',
             b'if header :regex "a" "b" {keep;}', b'require "imap4flags"; if hasflag "a" {keep;} # trailing comment\n', b"# only a comment\n",
-            b'if anyof(true, ', b'require ["copy", ', b'if true { keep; ', b'require "vacation"; vacation :subject "x', b"stop; } ", b'keep "\xff";']
+            b'if anyof(true, ', b'require ["copy", ', b'if true { keep; ', b'require "vacation"; vacation :subject "x', b"stop; } ", b'keep "\xff";',
+            # scripts refused at their very first byte (byte order mark, stray byte, NUL, closing bracket): nothing of an earlier script
+            # — its length, its line count — may show in the verdict
+            b"\xef\xbb\xbfkeep;", b"\xef\xbb\xbf\xef\xbb\xbf", b"\xffkeep;", b"\x00", b"}", b")", b"]", b'"unterminated', b"text:\nno end",
+            b"keep;\n\n\n\nstop;\n\n\n# seven lines\nstop", b"if true {\n keep;\n keep;\n keep;\n}\n\n\nfileinto"]
     for i in range(n):
         toks, need, nreq = g.script(2)
         pool.append(gen_scripts.render(toks, r, "rand"))
